@@ -1,7 +1,7 @@
 import UralModel.Lemmas.Canonicalize
 import UralModel.Lemmas.QuoteAuth
 /-!
-# The userinfo rule of `canonicalize_url` / `normalize_url` after FX-C01-NFKCUSERINFO
+# The userinfo rule of `canonicalize_url` / `normalize_url` after FX-C01-194b1c7
 
 `unquoteAuthItem` is `safely_unquote_auth_item` = the partial followed by `requoteNfkc`
 (`Model/QuoteAuth.lean`).  In quoted mode nothing changed (`safely_quote` escapes every
